@@ -1,7 +1,43 @@
 import Cherab.Drv.Proto
-open Cherab.Drv
+import Cherab.Model.NotifyGraph
+import Cherab.Model.CherabDeps
+import Cherab.Model.Notifier
+import Cherab.Gen.NotifyEdges
+open Cherab.Drv Cherab.NotifyGraph Cherab.CherabDeps Cherab.Gen.NotifyEdges
 
-/-- C01 driver: not yet implemented (echo) -/
+/-- C01 driver.
+  clears <param-node>        caches the generated graph says are invalidated by that mutator
+  uncovered                  (cache,param) pairs of the dependency table the graph does not cover
+  notifier <ops…>            Notifier model: ops `a<obj>.<name>` add, `r<obj>.<name>` remove, `k<obj>` kill, `n` notify;
+                             prints the callbacks invoked by each notify
+-/
+def parseEntry (s : String) : Nat × Nat :=
+  match s.splitOn "." with
+  | [a, b] => (a.toNat!, b.toNat!)
+  | _ => (0, 0)
+
+def notifierRun (ops : List String) : String :=
+  let (_, outs) := ops.foldl (fun (acc : Cherab.Notifier.St × List String) o =>
+    let (s, out) := acc
+    let op : Cherab.Notifier.Op :=
+      if o.startsWith "a" then .add (parseEntry (o.drop 1).toString)
+      else if o.startsWith "r" then .remove (parseEntry (o.drop 1).toString)
+      else if o.startsWith "k" then .kill (o.drop 1).toString.toNat!
+      else .notify
+    let (s', called) := Cherab.Notifier.step s op
+    match op with
+    | .notify => (s', out ++ ["[" ++ ",".intercalate (called.map fun e => s!"{e.1}.{e.2}") ++ "]"])
+    | _ => (s', out)) (Cherab.Notifier.init, [])
+  " ".intercalate outs
+
+def step (ts : List String) : String :=
+  match ts with
+  | ["clears", p] => " ".intercalate (clearsOf nodeNames edges fuel deps p)
+  | ["uncovered"] => " ".intercalate ((uncovered nodeNames edges fuel deps).map fun (c, p) => c ++ "<-" ++ p)
+  | ["known", p] => fB ((idOf nodeNames p).isSome)
+  | "notifier" :: ops => notifierRun ops
+  | _ => "bad-op"
+
 def main : IO UInt32 := do
-  loop (stateless fun ts => " ".intercalate ts) (← IO.getStdin) (← IO.getStdout) ()
+  loop (stateless step) (← IO.getStdin) (← IO.getStdout) ()
   return 0
